@@ -27,6 +27,7 @@ import (
 	"hash/crc32"
 	"io"
 	stdlog "log"
+	"net/http"
 	"os"
 	"os/exec"
 	"path/filepath"
@@ -40,6 +41,7 @@ import (
 	"github.com/AdguardTeam/AdGuardHome/internal/filtering/rulelist"
 	"github.com/AdguardTeam/AdGuardHome/internal/home"
 	"github.com/AdguardTeam/AdGuardHome/verifsim/crashfs"
+	"github.com/AdguardTeam/AdGuardHome/verifsim/env"
 	"github.com/AdguardTeam/AdGuardHome/verifsim/kernel"
 	"pgregory.net/rapid"
 )
@@ -459,7 +461,12 @@ func runHelper(base string, seq int, sc *Scenario, saves []Save, init map[string
 	tracePath := filepath.Join(r.dir, "trace.txt")
 	strLimit, procs := "0", "1"
 	if capture {
-		strLimit, procs = strconv.Itoa(64<<20), "4"
+		strLimit = strconv.Itoa(64 << 20)
+	}
+	if hasOverlap(sc.Saves) {
+		// Also in the injected runs of such a case, so that the main thread
+		// starts the same way as in its baseline run.
+		procs = "4"
 	}
 	args := []string{"-y", "-s", strLimit, "-o", tracePath, "-e", "trace=" + crashfs.TraceSet}
 	if inj == nil {
@@ -567,6 +574,87 @@ type checker struct {
 	inj       []injectable
 	destEver  bool // a rename ever replaced/created the destination
 	label     string
+	// ovCands is set during (and after) an overlapping save: every complete
+	// lease database a save of it can legitimately write - the previous table
+	// plus any subset of the concurrently added leases.
+	ovCands []version
+	// quiet keeps the event log free of scheduling-dependent lines.
+	quiet bool
+	// ovRenames counts the renames onto the destination during the overlap.
+	ovRenames int
+}
+
+// logf writes to the event log unless the run is in a phase whose details
+// depend on the thread interleaving.
+func (ck *checker) logf(format string, args ...any) {
+	if !ck.quiet {
+		ck.c.Eventf(format, args...)
+	}
+}
+
+func (ck *checker) inOverlap() bool {
+	return ck.curSave >= 1 && ck.sc.Saves[ck.curSave-1].Op == "overlap" && ck.ovCands != nil
+}
+
+func (ck *checker) matchOverlap(absent bool, data []byte) bool {
+	for _, v := range ck.ovCands {
+		if sameVersion(v, absent, data) {
+			return true
+		}
+	}
+	return false
+}
+
+// leaseCandidates returns the lease database files for the previous table
+// plus every subset of muts, each produced by the real code (a scratch server
+// loaded with prev, the subset applied one after the other through the real
+// handlers -> dbStore -> writeDB).  The file is sorted by hostname, so the
+// order of application does not matter.
+func leaseCandidates(prev version, muts []Mut) ([]version, error) {
+	out := []version{prev}
+	for mask := 1; mask < 1<<len(muts); mask++ {
+		dir, err := kernel.TempDir("c14-cand")
+		if err != nil {
+			return nil, fmt.Errorf("harness: %w", err)
+		}
+		v, err := func() (version, error) {
+			defer os.RemoveAll(dir)
+			if err := os.MkdirAll(filepath.Join(dir, "data"), 0o755); err != nil {
+				return version{}, err
+			}
+			dbPath := filepath.Join(dir, "data", "leases.json")
+			if !prev.absent {
+				if err := os.WriteFile(dbPath, prev.data, 0o644); err != nil {
+					return version{}, err
+				}
+			}
+			mux := env.NewMux()
+			conf := DHCPConf(dir)
+			conf.HTTPRegister = mux.Register
+			if _, err := dhcpd.Create(conf); err != nil {
+				return version{}, err
+			}
+			for i, m := range muts {
+				if mask&(1<<i) == 0 {
+					continue
+				}
+				code, resp, err := mux.Do(http.MethodPost, "/control/dhcp/"+m.Route, LeaseBody(m.N, m.Host))
+				if err != nil || code != http.StatusOK {
+					return version{}, fmt.Errorf("%s #%d: %d %s %v", m.Route, m.N, code, resp, err)
+				}
+			}
+			b, err := os.ReadFile(dbPath)
+			if err != nil {
+				return version{}, err
+			}
+			return version{data: b}, nil
+		}()
+		if err != nil {
+			return nil, fmt.Errorf("harness: computing the candidate lease tables: %w", err)
+		}
+		out = append(out, v)
+	}
+	return out, nil
 }
 
 func (ck *checker) destView() (absent bool, data []byte, ino *crashfs.Inode) {
@@ -611,10 +699,19 @@ func splitmix(x uint64) uint64 {
 // allowedPower lists the versions a power loss may leave: any complete
 // version written so far (the rename of an earlier save need not be durable
 // yet, nobody syncs the directory), or the one being written.
-func (ck *checker) allowedPower() []version { return ck.versions[:ck.curSave+1] }
+func (ck *checker) allowedPower() []version {
+	al := ck.versions[:ck.curSave+1]
+	if ck.inOverlap() {
+		al = append(append([]version(nil), al...), ck.ovCands...)
+	}
+	return al
+}
 
 func (ck *checker) matchPower(absent bool, data []byte) int {
-	al := ck.allowedPower()
+	if ck.inOverlap() && ck.matchOverlap(absent, data) {
+		return ck.curSave
+	}
+	al := ck.versions[:ck.curSave+1]
 	for i := len(al) - 1; i >= 0; i-- {
 		if sameVersion(al[i], absent, data) {
 			return i
@@ -712,7 +809,7 @@ func (ck *checker) crashStates(at int, ino *crashfs.Inode) error {
 			return err
 		}
 	}
-	ck.c.Eventf("  crash-states ino=%d pending=%d states=%d", ino.ID, n, states)
+	ck.logf("  crash-states ino=%d pending=%d states=%d", ino.ID, n, states)
 	return nil
 }
 
@@ -728,7 +825,7 @@ func (ck *checker) loader(data []byte, ver int) error {
 		return kernel.Violationf("loader-rejects-crash-state", "%s: the real loader fails on a crash state equal to version %d (%s): %v", ck.label, ver, describe(data), err)
 	}
 	ck.c.Probe("loader_ran")
-	ck.c.Eventf("  loader: %s", got)
+	ck.logf("  loader: %s", got)
 	return nil
 }
 
@@ -781,13 +878,18 @@ func (ck *checker) boundary(at int) error {
 		if !ok && ck.inSave {
 			ok = sameVersion(ck.versions[ck.curSave], absent, data)
 		}
+		if !ok && ck.inSave && ck.inOverlap() {
+			ok = ck.matchOverlap(absent, data)
+		}
 		if !ok {
 			what := "no file"
 			if !absent {
 				what = describe(data)
 			}
 			want := []version{ck.prev}
-			if ck.inSave {
+			if ck.inSave && ck.inOverlap() {
+				want = ck.ovCands
+			} else if ck.inSave {
 				want = append(want, ck.versions[ck.curSave])
 			}
 			return kernel.Violationf("torn-visible",
@@ -834,6 +936,7 @@ func (ck *checker) replay(init map[string][]byte) error {
 	}
 	ck.disk = crashfs.NewDisk(r.roots, initial)
 	ck.disk.Content = ck.content
+	ck.disk.Capture = r.capture
 	ck.written = map[[2]int][][2]int64{}
 	ck.memoCrash = map[int][2]int{}
 	ck.memoView = [2]int{-1, -1}
@@ -856,6 +959,21 @@ func (ck *checker) replay(init map[string][]byte) error {
 				ck.curSave, ck.inSave = k, true
 				absent, data, _ := ck.destView()
 				ck.prev = version{absent: absent, data: data}
+				if ck.sc.Saves[k-1].Op == "overlap" {
+					if r.result == nil || k-1 >= len(r.result.Saves) {
+						return fmt.Errorf("harness: no helper result for the overlapping save (exit %d, stderr %q)", r.exitCode, r.stderr)
+					}
+					muts := r.result.Saves[k-1].Muts
+					ck.ovCands, err = leaseCandidates(ck.prev, muts)
+					if err != nil {
+						return err
+					}
+					ck.c.Eventf("%s save %d (overlap) begins; destination %s; %d leases added at the same time, %d candidate tables", ck.label, k, ck.prev, len(muts), len(ck.ovCands))
+					// From here on the order of events is up to the scheduler.
+					ck.quiet = true
+					ck.c.Probe("overlapping_saves")
+					continue
+				}
 				ck.c.Eventf("%s save %d (%s) begins; destination %s; new version %s", ck.label, k, ck.sc.Saves[k-1].Op, ck.prev, ck.versions[k])
 			case strings.HasPrefix(eff.Marker, "save-end-"):
 				if err = ck.saveEnd(); err != nil {
@@ -886,10 +1004,14 @@ func (ck *checker) replay(init map[string][]byte) error {
 			if !eff.Touched {
 				continue
 			}
-			otherTid = true
+			if !ck.inOverlap() {
+				otherTid = true
+			} else if strings.HasPrefix(eff.Desc, "rename ") && ev.Errno == "" && strings.Contains(eff.Desc, "-> "+r.norm(ck.dest)+" ") {
+				ck.ovRenames++
+			}
 		}
 		seq++
-		ck.c.Eventf("%s #%d %s", ck.label, seq, eff.Desc)
+		ck.logf("%s #%d %s", ck.label, seq, eff.Desc)
 		if ck.inSave && ck.baseline && ev.Tid == r.trace.MainTid && injectableCalls[ev.Name] && ev.Errno == "" {
 			ck.inj = append(ck.inj, injectable{save: ck.curSave - 1, call: ev.Name, ord: ev.Ord, desc: eff.Desc})
 		}
@@ -940,6 +1062,33 @@ func (ck *checker) saveEnd() error {
 		sr = ck.r.result.Saves[k-1]
 	} else {
 		return fmt.Errorf("harness: no helper result for save %d (exit %d, stderr %q)", k, ck.r.exitCode, ck.r.stderr)
+	}
+	if ck.sc.Saves[k-1].Op == "overlap" {
+		// Which of the concurrent saves renamed last is up to the scheduler
+		// (and strace may report two renames that finished within
+		// microseconds in either order): the helper's reading only has to be
+		// one of the complete candidates, like everything seen on the way.
+		if !ck.matchOverlap(ck.r.after[k-1].absent, ck.r.after[k-1].data) {
+			return kernel.Violationf("torn-visible", "%s: after the overlapping saves (save %d) the destination reads as %s, none of the complete candidates %v",
+				ck.label, k, ck.r.after[k-1], ck.ovCands)
+		}
+		failed := 0
+		for _, m := range sr.Muts {
+			if m.Err != "" {
+				failed++
+			}
+		}
+		if failed > 0 || len(sr.Log) > 0 {
+			ck.c.Probe("overlap_save_reported_failure")
+		}
+		if ck.ovRenames >= 2 {
+			ck.c.Probe("overlap_two_renames_onto_dest")
+		}
+		ck.c.Eventf("%s save %d (overlap) ends: destination is a complete candidate", ck.label, k)
+		absent2, data2, _ := ck.destView()
+		ck.prev = version{absent: absent2, data: data2}
+		ck.c.Step()
+		return nil
 	}
 	if !sameVersion(ck.r.after[k-1], absent, data) {
 		return fmt.Errorf("harness: model and helper disagree on the destination after save %d: model %s, helper %s",
@@ -1011,6 +1160,11 @@ func (ck *checker) finalCompare() error {
 			return fmt.Errorf("harness: model has %s, the real tree does not", ck.r.norm(p))
 		}
 		if !crashfs.Equal(b, ino.Cache) {
+			if p == ck.dest && ck.inOverlap() && ck.matchOverlap(false, b) {
+				// See saveEnd: the order of two near-simultaneous renames.
+				delete(real, p)
+				continue
+			}
 			return fmt.Errorf("harness: content of %s differs: model %s, real %s", ck.r.norm(p), describe(ino.Cache), describe(b))
 		}
 		delete(real, p)
@@ -1049,7 +1203,7 @@ func run(t *testing.T, scAny any, c *kernel.Ctx) error {
 	c.Eventf("kind=%s tmp_same_fs=%v init=%s saves=%d", sc.Kind, sc.TmpSameFS, sc.Init, len(sc.Saves))
 
 	// 1. Baseline run: no fault; defines the versions.
-	r, err := runHelper(base, 0, sc, init, nil)
+	r, err := runHelper(base, 0, sc, sc.Saves, init, nil)
 	if r != nil {
 		defer r.cleanup()
 	}
@@ -1110,6 +1264,12 @@ func run(t *testing.T, scAny any, c *kernel.Ctx) error {
 
 	// 2. Error injection: re-run with one failing syscall each.
 	plan := injectionPlan(sc, ck.inj)
+	// Injected runs trace the main thread only: they leave out the (last)
+	// overlapping save, whose syscalls come from other threads.
+	injSaves := sc.Saves
+	if hasOverlap(injSaves) {
+		injSaves = injSaves[:len(injSaves)-1]
+	}
 	// Bound the cost of a case: an injected run costs about as much as the
 	// baseline's main thread made syscalls (plus copying the initial files).
 	mainCalls := 0
@@ -1145,7 +1305,7 @@ func run(t *testing.T, scAny any, c *kernel.Ctx) error {
 	}
 	for n, p := range plan {
 		inj := &injectSpec{call: p.call, ord: p.ord, errno: p.errno}
-		ri, rerr := runHelper(base, n+1, sc, init, inj)
+		ri, rerr := runHelper(base, n+1, sc, injSaves, init, inj)
 		if rerr != nil {
 			if ri != nil {
 				ri.cleanup()
@@ -1303,6 +1463,6 @@ var Prop = &kernel.Property{
 		"stale_version_state", "loader_ran",
 		"inject_on_open", "inject_on_write", "inject_on_fsync", "inject_on_fchmod", "inject_on_close", "inject_on_rename",
 		"fault_dest_stays_old_failure_reported", "fault_dest_new_failure_reported", "fault_tolerated_save_succeeded",
-		"dest_absent_after_save",
+		"dest_absent_after_save", "overlapping_saves", "overlap_two_renames_onto_dest",
 	},
 }
